@@ -81,7 +81,7 @@ impl Property for C18 {
         "exploration"
     }
     fn rule(&self) -> &'static str {
-        "A scenario = a valid configuration from the swarm grammar (verified: the same world runs Ok) plus exactly one corruption that is invalid by construction: final ')' of a call dropped, unmatched '(' added, unknown function name, arity min-1 / max+1 from the scraped function table, trailing garbage after a complete expression (also one stray character glued to a call), an expression cut to length zero, sort direction other than ASC/DESC, --set without '=', with an empty name, duplicated, or duplicated with a same-named definition of the other kind in between, JSON-only options with csv/text, text-only options with json/csv, csv without --select, csv or --headers with --group-by/--merge; in every option position and output style. World: a non-empty input waiting on stdin or, in a third of the scenarios, in two file arguments behind the opener seam (hook H2); in half of the scenarios hostile stubs (every read and write fails, opening the second file fails). Oracle: go returns Err and the recorded seam history of the run is empty (stdin factory not called, no file opened, no read, no write on either sink). evaluations = jawk executions; non-trivial = the corrupted configuration was executed (all scenarios that pass the validity pre-check); distinct = distinct (corruption kind, option position, output style, hostile?) combinations hashed into the abstract trace."
+        "A scenario = a valid configuration from the swarm grammar (verified: the same world runs Ok) plus exactly one corruption that is invalid by construction: final ')' of a call dropped, unmatched '(' added, unknown function name, arity min-1 / max+1 from the scraped function table, trailing garbage after a complete expression (also one stray character glued to a call), an expression cut to length zero, a literal or /name/ reference that lost its closing character, sort direction other than ASC/DESC, --set without '=', with an empty name, duplicated, or duplicated with a same-named definition of the other kind in between, JSON-only options with csv/text, text-only options with json/csv, csv without --select, csv or --headers with --group-by/--merge; in every option position and output style. World: a non-empty input waiting on stdin or, in a third of the scenarios, in two file arguments behind the opener seam (hook H2); in half of the scenarios hostile stubs (every read and write fails, opening the second file fails). Oracle: go returns Err and the recorded seam history of the run is empty (stdin factory not called, no file opened, no read, no write on either sink). evaluations = jawk executions; non-trivial = the corrupted configuration was executed (all scenarios that pass the validity pre-check); distinct = distinct (corruption kind, option position, output style, hostile?) combinations hashed into the abstract trace."
     }
     fn assumptions(&self) -> Vec<String> {
         vec![
@@ -143,7 +143,7 @@ impl Property for C18 {
         let exprs = expr_options(&case.opts);
         let kind: &str;
         // choose a corruption; fall back to one that is always possible
-        let choice = rng.below(19);
+        let choice = rng.below(21);
         let fresh_position = |rng: &mut Rng, expr: &str| -> Vec<String> {
             match rng.below(6) {
                 0 => vec![format!("--filter={expr}")],
@@ -252,6 +252,29 @@ impl Property for C18 {
                 needs.push(o.last().unwrap().clone());
                 case.opts[i] = o;
                 kind = "glued-garbage";
+            }
+            19 | 20
+                if exprs.iter().any(|i| {
+                    let e = split_expr(&case.opts[*i]).1;
+                    e.len() >= 2 && (e.ends_with('/') || e.ends_with('"') || e.ends_with(']') || e.ends_with('}'))
+                }) =>
+            {
+                // truncation by one character where that is invalid by construction: the
+                // closing slash of a /name/ reference, the closing quote or bracket of a literal
+                let c: Vec<usize> = exprs
+                    .iter()
+                    .copied()
+                    .filter(|i| {
+                        let e = split_expr(&case.opts[*i]).1;
+                        e.len() >= 2 && (e.ends_with('/') || e.ends_with('"') || e.ends_with(']') || e.ends_with('}'))
+                    })
+                    .collect();
+                let i = *rng.pick(&c);
+                let (p, e, s) = split_expr(&case.opts[i]);
+                let o = join_expr(&case.opts[i], &p, &e[..e.len() - 1], &s);
+                needs.push(o.last().unwrap().clone());
+                case.opts[i] = o;
+                kind = "dropped-closer";
             }
             16 if !exprs.is_empty() => {
                 // truncation to nothing: the expression is cut to length zero
